@@ -155,6 +155,34 @@ func (p *c19) RunCase(ctx *runner.Ctx) runner.CaseResult {
 			op.DoneCtx = mon.Pick(r, []string{"cancelled", "expired"})
 			x.r.Counters["batches_with_a_done_context"]++
 		}
+		if r.Intn(4) == 0 {
+			// a batch that is REFUSED as a whole goes first on the same client (it names a table that does not exist, after
+			// requests that are fine): it performs none of its requests - not now, and not as a rider of the batch that follows
+			pre := []adapt.BatchEntry{}
+			for i := 0; i < 1+r.Intn(3); i++ {
+				s := mon.Pick(r, specs)
+				it := mkItem(s, 500+i)
+				it["h"] = val.Str(fmt.Sprint("refused", i))
+				keys.Add(s.Name, m.Tables[s.Name].KeyOf(it))
+				pre = append(pre, adapt.BatchEntry{Table: s.Name, Put: it})
+			}
+			missing := mon.Pick(r, []string{"no-such-table19", "tbz19-missing", "tbb19x"}) // sorts before, after, between the tables that exist
+			pre = append(pre, adapt.BatchEntry{Table: missing, Put: val.Item{"h": val.Str("x")}})
+			if r.Intn(2) == 0 {
+				pre[0], pre[len(pre)-1] = pre[len(pre)-1], pre[0]
+			}
+			pg := cl.Do(adapt.Op{Kind: adapt.OpBatchWrite, Batch: pre})
+			x.r.Evals++
+			x.r.Counters["refused_batches_before_the_batch"]++
+			if pg.Class == adapt.ClsOK {
+				x.viol("batch-on-missing-table-accepted", "batchwrite", fmt.Sprintf("[%s] BatchWriteItem naming the missing table %s succeeded", adapter, missing), map[string]interface{}{"adapter": adapter, "batch": pre, "outcome": pg})
+				return x.r
+			}
+			if ds := mon.Observe(cl, m, keys, nil); len(ds) > 0 {
+				x.viol("refused-batch-left-trace", "batchwrite/missing-table", fmt.Sprintf("[%s] BatchWriteItem naming a missing table was refused (%s) but changed the tables: %s", adapter, pg.Class, ds[0].Detail), map[string]interface{}{"adapter": adapter, "specs": specs, "history": hist, "batch": pre, "outcome": pg})
+				return x.r
+			}
+		}
 		ctx.Trace("%s %s", adapter, op.String())
 		got := cl.Do(op)
 		if op.DoneCtx != "" && got.Class == adapt.ClsCancelled {
